@@ -1,5 +1,6 @@
 import XmlRsModel.Lemmas.DomEffect
 import XmlRsModel.Thm.C12
+import XmlRsModel.Lemmas.DomNormal
 /-! Property C13, the EFFECT half: a successful tree mutator performs exactly the change DOM Level 1
     specifies, including the move of a node that is already in the tree.  Stated on the child-id
     lists read off the model's forest, for every state satisfying the invariant of C12 (every state
@@ -82,6 +83,11 @@ theorem normalize_effect (s : St) (e : Nat) (en : Node) (hi : Inv s) (hf : s.fin
        = (s.update e fun n => (normNode n).1).roots ++ (normNode en).2 := by simp [St.roots]
   rw [this]
   exact findInL_append_left e _ _ _ h1
+
+/-- … and that form is normal: below the element and in its attribute values no Text node is empty, and no Text node
+    follows a Text node it could have been appended to (two stay apart only where their data together would not be
+    character data, `a]]` + `>b`) -/
+theorem normalize_reaches_normal_form (en : Node) : isNormal (normNode en).1 = true := normNode_normal en
 
 /-- … and no node is lost or duplicated by it: every node is afterwards in the normalized tree or a detached root -/
 theorem normalize_preserves_nodes (s : St) (e : Nat) (hi : Inv s) : SameIds s (step s (.normalize e)).1 :=
